@@ -105,6 +105,19 @@ def run : St → List Ev → Option St
   | s, [] => some s
   | s, e :: es => if pre s e then run (step s e) es else none
 
+/-- what entitles gkvlite to LOOK at item `i` (compare its key, copy its value, show it to a
+    visitor): it reaches the item through a node that is allocated and caches it, or it holds a
+    reference it took for handing the item out.  A pointer kept from an earlier moment is not on
+    this list — defect F20: `VisitItemsAscendEx` kept the previously visited `*Item`, the block
+    visitors kept slices of visited items' key buffers, after the visit had released them. -/
+def mayLookAt (s : St) (i : Nat) : Prop :=
+  (∃ n, n ∈ s.nodes ∧ s.cached n = some i) ∨ 0 < s.handed i
+
+instance (s : St) (i : Nat) : Decidable (mayLookAt s i) :=
+  decidable_of_iff ((∃ n ∈ s.nodes, s.cached n = some i) ∨ 0 < s.handed i)
+    ⟨fun h => h.elim (fun ⟨n, h1, h2⟩ => Or.inl ⟨n, h1, h2⟩) Or.inr,
+     fun h => h.elim (fun ⟨n, h1, h2⟩ => Or.inl ⟨n, h1, h2⟩) Or.inr⟩
+
 /-- number of allocated nodes whose `itemLoc` caches item `i` -/
 def holders (s : St) (i : Nat) : Nat := s.nodes.countP (fun n => s.cached n = some i)
 
